@@ -58,7 +58,20 @@ impl RawParameters {
         let mut globals = self.globals.clone();
         if definition.is_resource_name() {
             globals.remove("_name");
-            globals.extend(definition.split_into_parameters());
+            for (key, mut value) in definition.split_into_parameters() {
+                // An argument referring to the caller's parameters ('$name') is resolved
+                // here, in the scope of the caller, so it survives any clash with the
+                // names used further down, whatever their lexical order
+                if value.trim_start().starts_with('$') {
+                    let argument = BTreeMap::from([(key.clone(), value.clone())]);
+                    if let Ok(Some(resolved)) =
+                        super::parsed_parameters::chase(&self.globals, &argument, &key)
+                    {
+                        value = resolved;
+                    }
+                }
+                globals.insert(key, value);
+            }
             globals.remove("inv");
             globals.remove("omit_fwd");
             globals.remove("omit_inv");
